@@ -2082,6 +2082,7 @@ bn_and(bn_p bn, bn_p n) {
 	if (bn->count > digits) {
 		bn->num[digits] = 0;
 	}
+	bn->digits = digits; /* Digits above the shorter operand are and-ed with 0. */
 	bn_update_digits__int(bn, digits);
 	return (0);
 }
